@@ -32,25 +32,8 @@ class C14(OptCheck):
                 if tier == "thorough":
                     for h in itertools.product(vecs, repeat=3):
                         yield case(d, env, list(h), kind="hist"), "history-3"
-        # calls interleaved with environment changes and with further declarations on the same parser object
-        for _ in range(3000 if tier == "quick" else 30000):
-            d0 = random_decl(rng)
-            steps = []
-            cur = d0
-            for _ in range(rng.randint(2, 5)):
-                k = rng.random()
-                if k < 0.55:
-                    toks = tokens_for(cur, rich=False)
-                    argv = render_assignment(cur, rng) if rng.random() < 0.6 else [rng.choice(toks) for _ in range(rng.randint(0, 4))]
-                    steps.append("a:" + wl(argv))
-                elif k < 0.8:
-                    steps.append("e:" + env_wire(random_env(cur, rng)))
-                else:
-                    cur = grow_decl(cur, rng)
-                    steps.append("d:" + cur.wire())
-            if not any(s.startswith("a:") for s in steps):
-                steps.append("a:.")
-            yield "steps %s %s %s" % (d0.wire(), env_wire(random_env(d0, rng)), " ".join(steps)), "steps"
+        # calls interleaved with environment changes, further declarations and moves of the parser object
+        yield from reuse_stream(tier, rng, 6000 if tier == "quick" else 60000)
         shl = shapes()
         for _ in range(6000 if tier == "quick" else 60000):
             name, d = rng.choice(shl) if rng.random() < 0.6 else ("random", random_decl(rng))
